@@ -30,8 +30,8 @@
 // the budget are slow here, so a job is abandoned (CapHit) after 3 (quick) / 32 (thorough) of them, and a
 // target whose raw inputs already do that is not given longer raw inputs; see gcPolicy for the child handling.
 //
-// One violation is reported per (class, target, panicking function) with the minimal input of the enumerated
-// space: "panic target=<name> at=<func> input=<hex | alter=<op>@<pos> of <encoding>>"; classes: panic, crash,
+// One violation is reported per (class, target, panicking function:line) with the minimal input of the enumerated
+// space: "panic target=<name> at=<func>:<line> input=<hex | alter=<op>@<pos> of <encoding>>"; classes: panic, crash,
 // alloc, hang, partial-effect, steps. C16_DUMP=<file> writes every group, C16_TIMING=1 prints progress.
 package main
 
@@ -44,7 +44,6 @@ import (
 	"os/exec"
 	"path/filepath"
 	"regexp"
-	"runtime"
 	"runtime/debug"
 	"runtime/metrics"
 	"runtime/pprof"
@@ -324,10 +323,18 @@ func allocNow() uint64 {
 
 var immuFrame = regexp.MustCompile(`github\.com/codenotary/immudb/([^\s(]+(\(\*?[A-Za-z0-9_]+\))?[^\s(]*)\(`)
 
-// panicSite returns the innermost immudb function on the stack of a recovered panic.
+var lineRe = regexp.MustCompile(`\.go:(\d+)`)
+
+// panicSite returns the innermost immudb function on the stack of a recovered panic, with its source line.
 func panicSite(stack string) string {
-	for _, ln := range strings.Split(stack, "\n") {
+	lines := strings.Split(stack, "\n")
+	for i, ln := range lines {
 		if m := immuFrame.FindStringSubmatch(ln); m != nil && !strings.HasPrefix(ln, "\t") {
+			if i+1 < len(lines) {
+				if l := lineRe.FindStringSubmatch(lines[i+1]); l != nil {
+					return m[1] + ":" + l[1]
+				}
+			}
 			return m[1]
 		}
 	}
@@ -399,6 +406,7 @@ func childMain() {
 			fmt.Fprintf(os.Stderr, "unknown family %s/%s\n", j.T, j.F)
 			os.Exit(4)
 		}
+		j.Hi = min(j.Hi, f.n)
 		allocCap := allocCapQuick
 		if thoroughTier {
 			allocCap = allocCapThorough
@@ -407,12 +415,12 @@ func childMain() {
 			allocCap = 16 // 257 inputs only: go far enough to see the first allocation beyond the budget
 		}
 		r := &rmsg{Seq: j.Seq, Outcomes: map[string]int64{}, Groups: map[string]int64{}}
-		best := map[string]int{} // violation group -> length of the best input sent so far
+		best := map[string]vmsg{} // violation group -> smallest reproducer sent so far (same order as the parent's)
 		send := func(v vmsg) {
 			k := v.Class + "|" + v.At
 			r.Groups[k]++
-			if l, ok := best[k]; !ok || len(v.Hex) < l {
-				best[k] = len(v.Hex)
+			if b, ok := best[k]; !ok || better(v, b) {
+				best[k] = v
 				v.T, v.F = j.T, j.F
 				emit(line{V: &v})
 			}
@@ -1149,7 +1157,6 @@ func report() {
 			c.Sample(map[string]any{"target": t.name, "family": f.name, "index": f.n / 2, "input": inputDesc(in, d), "hex": trunc(hex.EncodeToString(in), 80)})
 		}
 	}
-	_ = runtime.NumCPU
 }
 
 func trunc(s string, n int) string {
